@@ -49,7 +49,50 @@ func (e *Engine) initState(x *Exec) *State {
 	st := &State{heap: &Heap{comps: map[string]*Term{}, alloc: a0}, known: map[string]bool{}}
 	st.assume(App("<", SBool, IntLit(0, SInt), a0))
 	x.alloc0 = a0
+	e.installAutoLemmas(x, st)
 	return st
+}
+
+// installAutoLemmas adds the package's `auto` lemmas (each proved in its own unit) as quantified
+// axioms; only lemmas over heap-independent spec functions qualify.
+func (e *Engine) installAutoLemmas(x *Exec, st *State) {
+	if x.unit == nil || x.unit.Spec == nil {
+		return
+	}
+	for _, con := range x.unit.Spec.Contracts {
+		if con.Kind != "lemma" || !con.Auto || con == x.unit.Con {
+			continue
+		}
+		fd := firstClauseFunc(con)
+		if fd == nil {
+			continue
+		}
+		info := e.clauseInfo[firstClause(con)]
+		env := &Env{x: x, vars: map[string]*SV{}, bound: map[string]*Term{}, heap: st.heap, old: st.heap, info: info}
+		var vars []*Term
+		for _, f := range fd.Type.Params.List {
+			t := info.Types[f.Type].Type
+			for _, nm := range f.Names {
+				x.w.seq++
+				v := Atom(fmt.Sprintf("%s!q%d", nm.Name, x.w.seq), x.w.SortOf(t))
+				vars = append(vars, v)
+				env.bound[nm.Name] = v
+			}
+		}
+		var pre, post []*Term
+		for _, c := range con.Requires {
+			e2 := *env
+			e2.info = e.clauseInfo[c]
+			pre = append(pre, x.svTerm(e2.eval(c.Expr)))
+		}
+		for _, c := range con.Ensures {
+			e2 := *env
+			e2.info = e.clauseInfo[c]
+			post = append(post, x.svTerm(e2.eval(c.Expr)))
+		}
+		x.w.axioms = append(x.w.axioms, Forall(vars, Imp(And(pre...), And(post...))))
+		x.notes = append(x.notes, "uses lemma "+con.Key+" (proved as its own unit)")
+	}
 }
 
 func (e *Engine) assumeGlobalInvs(x *Exec, st *State, pkgPath string) {
